@@ -248,7 +248,7 @@ Definition rc_rows : list string := [
   "cachex/cache_impl.go:cacheImpl.fetchIfFutureStatusGood|C:getPredecessor C:getFutureStatus if( ){ ret } ret";
   "cachex/cache_impl.go:cacheImpl.getFutureStatus|if( ){ C:getUpdateTime if( ){ ret } if( R:err ){ } if( ){ ret } else{ if( ){ ret } else{ ret } } } ret";
   "cachex/cache_impl.go:cacheImpl.removeRotted|for{ R:futures S:futures.Lock for{ R:d C:getFutureStatus if( ){ R:d } } S:futures.Unlock }";
-  "cachex/cache_impl.go:cacheImpl.sendJob|select{ case{ send:jobChan } case{ recv:closeChan } }";
+  "cachex/cache_impl.go:cacheImpl.sendJob|select{ case{ send:jobChan } case{ recv:closeChan C:loader C:setValue ret } } select{ case{ recv:closeChan } case{ default } }";
   "cachex/cache_impl.go:cacheImpl.startJobGoroutines|R:jobChan R:closeChan for{ go{ func{ for{ select{ case{ recv:jobChan C:loader C:setValue } case{ recv:C C:removeRotted } case{ recv:closeChan ret } } } } } }";
   "cachex/future.go:Future.Get1|S:wg.Wait R:value ret";
   "cachex/future.go:Future.Get2|S:wg.Wait R:value R:err ret";
